@@ -25,7 +25,7 @@ TIERS = {
 REQUIRED_BUCKETS = ['tree:depth3+', 'tree:file-included-twice', 'tree:fanout2+', 'conflict:before-include', 'conflict:after-include', 'conflict:between-includes',
                     'search:first-location-wins', 'search:later-location', 'search:reader-order-decides', 'search:memory-reader', 'search:absolute-name',
                     'search:package-slash', 'search:package-dot', 'missing:include', 'missing:top-level', 'imports:per-file', 'entry:parse_config_file',
-                    'entry:files_and_bindings', 'entry:parse_config-with-include', 'finalize:true', 'finalize:false', 'unknown:raises', 'unknown:skipped',
+                    'entry:files_and_bindings', 'entry:parse_config-with-include', 'finalize:true', 'finalize:false', 'unknown:raises', 'unknown:skipped', 'unknown:skipped-by-list', 'unknown:in-included-file', 'unknown:raises-not-in-list',
                     'locations:3+', 'readers:2']
 ORACLE_COUNTERS = ['oracle_evals', 'trees_compared', 'flattened_compared']
 _S = {}
@@ -107,7 +107,8 @@ def iter_cases(ctx, rng, n):
       missing = rng.choice(sorted(state['files']))
     yield {'files': {str(k): v for k, v in state['files'].items()}, 'nloc': nloc, 'nread': nread, 'place': {str(k): v for k, v in place.items()},
            'missing': missing, 'entry': rng.choice(['parse_config_file', 'files_and_bindings', 'parse_config-with-include']),
-           'finalize': rng.random() < 0.5, 'unknown': rng.choice([None, None, 'raise', 'skip']), 'twice': state['twice']}
+           'finalize': rng.random() < 0.5, 'unknown': rng.choice([None, None, 'raise', 'skip', 'skip-list', 'list-without-it']),
+           'unknown_in': str(rng.choice(sorted(state['files']))), 'twice': state['twice']}
 
 
 class World:
@@ -170,7 +171,7 @@ class World:
         lines.append('import %s' % st[1])
       else:
         lines.append("include '%s'" % self.names[str(st[1])])
-    if self.case['unknown'] and fid == '0':
+    if self.case['unknown'] and fid == self.case.get('unknown_in', '0'):
       lines.append('c14_unknown_configurable.x = 1')
     return '\n'.join(lines) + '\n'
 
@@ -228,7 +229,7 @@ class World:
       else:
         if not self.flatten(str(st[1]), out, stop):
           return False
-    if self.case['unknown'] and fid == '0':
+    if self.case['unknown'] and fid == self.case.get('unknown_in', '0'):
       out.append('c14_unknown_configurable.x = 1')
     return True
 
@@ -319,8 +320,13 @@ def _run(ctx, case, w, gin, gc):
   # ---- expected: flattened text on a cleared config
   flat = []
   complete = w.flatten('0', flat, None)
-  skip = case['unknown'] == 'skip'
-  raises_unknown = case['unknown'] == 'raise' and complete
+  skip = {'skip': True, 'skip-list': ['c14_unknown_configurable', 'something_else'], 'list-without-it': ['something_else', 'c14_other']}.get(case['unknown'], False)
+  # is the file holding the unknown statement reached before a missing file stops the parse?
+  raises_unknown = case['unknown'] in ('raise', 'list-without-it') and any('c14_unknown_configurable' in l for l in flat)
+  if raises_unknown and not complete:
+    return  # two faults in one tree (missing file and unknown name): which comes first is C16's subject
+  if case['unknown'] and case.get('unknown_in', '0') != '0' and any('c14_unknown_configurable' in l for l in flat):
+    ctx.bucket('unknown:in-included-file')
   gin.clear_config()
   exp_exc = None
   try:
@@ -366,11 +372,11 @@ def _run(ctx, case, w, gin, gc):
     ctx.check(got_store == expected_store, 'missing-file-store-not-prefix', 'store after the failed include differs from the prefix: %r' % (snap.diff(got_store, expected_store),))
     return
   if raises_unknown:
-    ctx.bucket('unknown:raises')
+    ctx.bucket('unknown:raises' if case['unknown'] == 'raise' else 'unknown:raises-not-in-list')
     ctx.check(isinstance(exc, ValueError) and exp_exc == 'unknown', 'unknown-name-not-an-error', 'unknown configurable without skip_unknown: got %r' % (exc,))
     return
-  if case['unknown'] == 'skip':
-    ctx.bucket('unknown:skipped')
+  if case['unknown'] in ('skip', 'skip-list'):
+    ctx.bucket('unknown:skipped' if case['unknown'] == 'skip' else 'unknown:skipped-by-list')
   if not ctx.check(exc is None, 'unexpected-exception', '%s raised %s: %s' % (entry, type(exc).__name__, str(exc)[:400])):
     return
   if entry == 'files_and_bindings':
